@@ -12,8 +12,8 @@ SPEC = {
     "sub": "c13",
     "lean_modules": ["TrustVerif.Props.C13"],
     "tiers": {
-        "quick": {"cases": 250, "extra": {"steps": 25}},
-        "thorough": {"cases": 4000, "extra": {"steps": 35}},
+        "quick": {"cases": 200, "extra": {"steps": 25}},
+        "thorough": {"cases": 3000, "extra": {"steps": 35}},
     },
     "search_factor": 4,
     # The compared `impl`/`m` lines are the three file-set views of the Database (verif_views hook), i.e.
@@ -24,10 +24,16 @@ SPEC = {
     "rule": "case = generated history of 25 (quick) / 35 (thorough) operations set(f,text) / rm(f) / burst of 1-3 "
             "queries (analyze, diagnostics, file_symbols, type_of, expr_id_at_offset) over 1-5 files of a small "
             "cross-referencing project (functions+callers, TYPE/FB/PROGRAM, VAR_GLOBAL/VAR_EXTERNAL with tasks, "
-            "namespaces+USING, interfaces/EXTENDS, duplicate global names, the filling_line/plant_demo examples, "
-            "token soup), texts drawn from per-role variants, generic mutations (truncate, drop/duplicate a line, "
+            "namespaces+USING, interfaces/EXTENDS, duplicate global names, CONSTANT EXPRESSIONS with boundary "
+            "arithmetic (operands 0, +-1, +-2, 63, 64, MIN/MAX of i8..i64 built from literals or named constants; "
+            "operators + - * / MOD ** unary +-; in VAR CONSTANT initialisers, array bounds, subrange bounds, enum "
+            "values, STRING lengths, CASE labels, array indices, subrange assignments, typed literals, across files), "
+            "the filling_line/plant_demo examples, token soup), texts drawn from per-role variants, generic mutations (truncate, drop/duplicate a line, "
             "INT->DINT, stray token), foreign roles, identical re-sets, empty text; file ids in random relative "
-            "order incl. u32::MAX; every history ends with a sweep of all kinds over all files and an unknown file "
+            "order incl. u32::MAX; 2 of 5 histories are built from MOTIFS (add or re-add a file then, before any "
+            "project-level query, edit or remove another file; remove and re-add the lowest-id file; a project-level "
+            "sweep of diagnostics/analyze/type_of after the operations, also on the still empty project); every history "
+            "ends with a sweep of all kinds over all files and an unknown file "
             "in random order. Every 5th case is a Project-layer history (keys instead of ids). non-trivial = a query "
             "was answered before a later edit AND a file was removed at some point AND a file remains at the end (db stream), or a key "
             "was removed and re-added (proj stream); distinct = by hash of the case's operation lines",
@@ -87,11 +93,30 @@ MANIFEST = {
                   "re-added key a NEW FileId (proved: c13_project_readd_moves_last, c13_project_order_counterexample), "
                   "so with duplicate global names across files the answers after remove+re-add differ from a freshly "
                   "loaded Project; recorded as known finding C13-project-readd-id-order and replayed on every run. "
+                  "'No query panics for any file contents' is FALSE on the current tree in the dev profile: an enum value "
+                  "of i64::MAX overflows `next_value = value + 1` in collect_enum_type and every project-level query "
+                  "panics (known finding C13-enum-next-value-overflow, found by the constant-expression stream, replayed "
+                  "on every run; Lean: c13_counterexample_enum_overflow / c13_enum_values_partial); panics are classified "
+                  "by message and location, any other panic is a violation. "
                   "Proved for the Project layer: c13_project_view (texts by key are right), c13_project_db_fresh "
                   "(answers equal a fresh Database given the same ids).",
 }
 
 KNOWN_SIG = "project-readd-id-order"
+# known panics: (signature in known_findings.json, substrings that must all occur in the panic message)
+KNOWN_PANICS = [
+    ("panic:collector/types.rs:attempt to add with overflow",
+     ("collector/types.rs", "attempt to add with overflow")),
+]
+
+
+def _known_panic(message):
+    """Signature of the listed known finding this panic message belongs to, or None."""
+    for sig, needles in KNOWN_PANICS:
+        if all(n in message for n in needles):
+            if any(k.get("match") == sig for k in vlib.known_findings("C13")):
+                return sig
+    return None
 
 
 def _fields(line):
@@ -104,6 +129,8 @@ def _fields(line):
 
 
 def _decode(hexs, limit=1500):
+    if hexs == "-":
+        return ""
     try:
         return bytes.fromhex(hexs).decode("utf-8", "replace")[:limit]
     except ValueError:
@@ -236,6 +263,7 @@ def cross_process_sample(ctx, k):
 def extra(ctx):
     fails, known_hits, n_o, n_p = [], [], 0, 0
     failures = []
+    known_panics = {}
     proj = {"queries": 0, "with_permuted_ids": 0, "differs_from_fresh_same_ids": 0,
             "differs_from_fresh_key_order": 0}
     witness_reproduced = False
@@ -247,6 +275,14 @@ def extra(ctx):
                 if f.get("fresh") == "1" and f.get("repeat") == "1" and f.get("panic") == "0":
                     continue
                 detail = _details(c.lines[i + 1: i + 4])
+                if f.get("panic") != "0":
+                    sig = _known_panic(detail.get("panic", ""))
+                    if sig:
+                        known_panics.setdefault(sig, [0, False])
+                        known_panics[sig][0] += 1
+                        if "witness" in c.tags:
+                            known_panics[sig][1] = True
+                        continue
                 which = ("panic" if f.get("panic") != "0" else
                          "answer differs from a fresh database" if f.get("fresh") != "1" else
                          "repeated query returned a different answer")
@@ -261,8 +297,14 @@ def extra(ctx):
                 bad_same = f.get("same_order") != "1" or f.get("repeat") != "1" or f.get("panic") != "0"
                 bad_key = f.get("key_order") != "1"
                 if bad_same:
-                    proj["differs_from_fresh_same_ids"] += 1
                     detail = _details(c.lines[i + 1: i + 6])
+                    if f.get("panic") != "0":
+                        sig = _known_panic(detail.get("panic", ""))
+                        if sig:
+                            known_panics.setdefault(sig, [0, False])
+                            known_panics[sig][0] += 1
+                            continue
+                    proj["differs_from_fresh_same_ids"] += 1
                     fails.append({"case": c.n, "seed": ctx["seed"], "tier": ctx["tier"], "layer": "Project",
                                   "what": "panic / repeat / answer differs from a fresh project with the same id order",
                                   "query": l[3:], "history": _history(c, i), "answers": detail})
@@ -289,6 +331,10 @@ def extra(ctx):
                               "what": "answers after remove+re-add differ from a fresh project loaded in key order "
                                       "(not listed in known_findings.json)",
                               "query": l[3:], "history": _history(c, i), "answers": _details(c.lines[i + 1: i + 6])})
+    for sig, (count, on_witness) in sorted(known_panics.items()):
+        entry = [k for k in vlib.known_findings("C13") if k.get("match") == sig][0]
+        known.append(f"{entry['id']}: {entry['what']} [{count} queries in this run; recorded witness "
+                     f"{'reproduces' if on_witness else 'did NOT reproduce'}]")
     # the in-process oracle's blind spot: state outside the Database object
     try:
         hits = purity_scan()
@@ -302,9 +348,62 @@ def extra(ctx):
     fails += xfails
     cov = {"oracle_queries_database_layer": n_o, "oracle_queries_project_layer": n_p, "project_layer": proj,
            "project_witness_reproduced": witness_reproduced,
+           "known_panics": {k: v[0] for k, v in known_panics.items()},
            "oracle_queries_rechecked_in_a_new_process": asked,
            "stateful_statics_in_trust_hir_and_trust_syntax": hits}
     return {"coverage": cov, "oracle_failures": fails, "known": known, "failures": failures}
+
+
+def run(tier, seed):
+    """The standard pipeline, plus: when the tie between the proved model and the code breaks (hook views
+    disagree) without the oracle having produced a failing input, a follow-up search biased to the shapes
+    in which stale bookkeeping shows (`--focus 1`: duplicate global names across files with a user file,
+    out-of-order ids, add->edit->query, add->remove->query, remove->re-add, project-level sweeps between
+    the operations), 2 rounds of 2x the budget, same seed family.  The first oracle failure found is promoted to the
+    failing input.  When failing inputs exist the (then redundant) view disagreements are attached to
+    them instead of being listed as separate `no-failing-input-found` entries."""
+    import check
+    mod = sys.modules[__name__]
+    r = check.standard_run(mod, tier, seed)
+    ok_proofs = r.get("proof") is not None and r["cases"]
+    if ok_proofs and r["disagreements"] and not r["oracle_failures"]:
+        extra_cfg = SPEC["tiers"][tier]["extra"]
+        extra_cfg["focus"] = 1
+        try:
+            for k in range(1, 3):
+                r2 = check.standard_run(mod, tier, seed + 7919 * k, search_factor=2)
+                r["cases"] += r2["cases"]
+                r["wall"] += r2["wall"]
+                r["extra"]["focused_search_cases"] = r["extra"].get("focused_search_cases", 0) + r2["cases"]
+                if r2["oracle_failures"]:
+                    for d in r2["oracle_failures"]:
+                        d["extra"] = {"focus": 1}
+                        d["found_by"] = "focused follow-up search after the model/implementation views disagreed"
+                    r["oracle_failures"] = r2["oracle_failures"]
+                    break
+        finally:
+            extra_cfg.pop("focus", None)
+    elif (not r["disagreements"] and not r["oracle_failures"] and r["failures"] and r["cases"]):
+        # a proof obligation or an assumption is broken: search harder for a concrete failing input
+        r2 = check.standard_run(mod, tier, seed + 1, search_factor=SPEC.get("search_factor", 4))
+        r["disagreements"] = r2["disagreements"]
+        r["oracle_failures"] = r2["oracle_failures"]
+        r["cases"] += r2["cases"]
+        r["wall"] += r2["wall"]
+    if r["oracle_failures"] and r["disagreements"]:
+        first = r["disagreements"][0]
+        note = {"count": len(r["disagreements"]),
+                "first": {k: first.get(k) for k in ("case", "seed", "op_index", "op", "impl", "model")}}
+        for d in r["oracle_failures"]:
+            d["model_vs_implementation_view_disagreements"] = note
+        r["extra"]["correspondence_disagreements_attached_to_failing_inputs"] = len(r["disagreements"])
+        r["disagreements"] = []
+    code = check.decide(mod, r, tier, seed)
+    print(f"C13 {tier} seed={seed}: proofs {r['proof']['discharged']}/{r['proof']['obligations']} "
+          f"cases={r['cases']} nontrivial={r['distinct_nontrivial']} "
+          f"oracle_failures={len(r['oracle_failures'])} disagreements={len(r['disagreements'])} "
+          f"failures={len(r['failures'])} wall={r['wall']:.1f}s -> exit {code}", flush=True)
+    return code
 
 
 def replay(obj):
@@ -316,7 +415,14 @@ def replay(obj):
         print("this replay names a broken obligation, not an input; re-run the check itself")
         return 1
     mod = sys.modules[__name__]
-    r = check.standard_run(mod, obj.get("tier", "quick"), obj["seed"], only=int(obj["case"]))
+    tier = obj.get("tier", "quick")
+    extra_cfg = SPEC["tiers"][tier]["extra"]
+    if (obj.get("extra") or {}).get("focus"):
+        extra_cfg["focus"] = 1
+    try:
+        r = check.standard_run(mod, tier, obj["seed"], only=int(obj["case"]))
+    finally:
+        extra_cfg.pop("focus", None)
     for d in r["disagreements"]:
         print(f"case {d['case']} op {d['op_index']}: {d['op']}\n  impl : {d['impl']}\n  model: {d['model']}")
     for d in r["oracle_failures"]:
